@@ -2926,13 +2926,25 @@ namespace awkward {
       case util::dtype::datetime64:
         switch (contiguous_array.dtype()) {
         case util::dtype::datetime64:
-          err = kernel::NumpyArray_fill_scaled<int64_t, int64_t>(
-            ptr_lib,
-            reinterpret_cast<int64_t*>(ptr.get()),
-            flatlength_so_far,
-            reinterpret_cast<int64_t*>(contiguous_array.data()),
-            flatlength,
-            util::scale_from_units(contiguous_array.format(), contiguous_index));
+          if (util::scale_from_units(contiguous_array.format(), contiguous_index) == 1.0) {
+            // same units: an exact copy (scaling goes through double, which
+            // cannot hold every 64-bit count)
+            err = kernel::NumpyArray_fill<int64_t, int64_t>(
+              ptr_lib,
+              reinterpret_cast<int64_t*>(ptr.get()),
+              flatlength_so_far,
+              reinterpret_cast<int64_t*>(contiguous_array.data()),
+              flatlength);
+          }
+          else {
+            err = kernel::NumpyArray_fill_scaled<int64_t, int64_t>(
+              ptr_lib,
+              reinterpret_cast<int64_t*>(ptr.get()),
+              flatlength_so_far,
+              reinterpret_cast<int64_t*>(contiguous_array.data()),
+              flatlength,
+              util::scale_from_units(contiguous_array.format(), contiguous_index));
+          }
           break;
         default:
           throw std::runtime_error(
@@ -2945,13 +2957,25 @@ namespace awkward {
       case util::dtype::timedelta64:
         switch (contiguous_array.dtype()) {
         case util::dtype::timedelta64:
-          err = kernel::NumpyArray_fill_scaled<int64_t, int64_t>(
-            ptr_lib,
-            reinterpret_cast<int64_t*>(ptr.get()),
-            flatlength_so_far,
-            reinterpret_cast<int64_t*>(contiguous_array.data()),
-            flatlength,
-            util::scale_from_units(contiguous_array.format(), contiguous_index));
+          if (util::scale_from_units(contiguous_array.format(), contiguous_index) == 1.0) {
+            // same units: an exact copy (scaling goes through double, which
+            // cannot hold every 64-bit count)
+            err = kernel::NumpyArray_fill<int64_t, int64_t>(
+              ptr_lib,
+              reinterpret_cast<int64_t*>(ptr.get()),
+              flatlength_so_far,
+              reinterpret_cast<int64_t*>(contiguous_array.data()),
+              flatlength);
+          }
+          else {
+            err = kernel::NumpyArray_fill_scaled<int64_t, int64_t>(
+              ptr_lib,
+              reinterpret_cast<int64_t*>(ptr.get()),
+              flatlength_so_far,
+              reinterpret_cast<int64_t*>(contiguous_array.data()),
+              flatlength,
+              util::scale_from_units(contiguous_array.format(), contiguous_index));
+          }
           break;
         default:
           throw std::runtime_error(
